@@ -610,7 +610,9 @@ cases:
 				n = len(out)
 			}
 			if _, err := conn.Write(out[:n]); err != nil {
-				if hw.pluginStreamWrapped && onConn > 0 {
+				// (with the http vhost in front, the first request of a user connection too may travel over a pooled
+				// work connection that an earlier user connection left behind and the plugin's server has closed since)
+				if hw.pluginStreamWrapped && (onConn > 0 || hw.frontVhost) {
 					hw.viol("response", knownKeepAliveSig, "case %d: request %d on a keep-alive connection could not be written: %v", c.id, onConn+1, err)
 					conn.Close()
 					conn = nil
